@@ -505,7 +505,9 @@ def prep_hybrid(ctx, case):
     for it in range(case['iters'] + 1):
         def fn(r, it=it):
             loc = X[local_ids(w, L, r)].copy()
-            rs = np.random.RandomState(case['rseed']) if case['rs'] == 'object' else case['rseed'] % (2 ** 31)
+            # rank 0's generator decides, the others receive: different seeds per rank
+            rseed = (case['rseed'] + 7919 * r) % (2 ** 31)
+            rs = np.random.RandomState(rseed) if case['rs'] == 'object' else rseed
             if case.get('api') == 'class':
                 res = hybrid.KHybrid(metric, n_clusters=k, kmedoids_updates=it, random_state=rs,
                                      mpi_mode=(True if w == 1 else None)).fit(loc).result_
@@ -751,7 +753,8 @@ def prep_pam_model(ctx, case):
         # the conversion kmedoids() itself applies to the warm-start centers
         inds = [(int(a), int(b)) for a, b in kmedoids.ctr_ids_mpi(cci, list(L))]
         a, d = a0[ids[r]].copy(), d0[ids[r]].copy()
-        rs = _recording_random_state(case['pseed'] % (2 ** 31)) if pm == 'random' else None
+        # rank 0's generator decides the proposals, the other ranks receive them: different seeds per rank
+        rs = _recording_random_state((case['pseed'] + 7919 * r) % (2 ** 31)) if pm == 'random' else None
         if rs is not None:
             drawlog[r] = rs.draws          # kept even when the call raises (an empty cluster has no member)
         sweeps, costs = [], []
@@ -770,6 +773,17 @@ def prep_pam_model(ctx, case):
             sweeps.append({'ctrs': [[int(x), int(y)] for x, y in inds], 'dist': [float(x) for x in d],
                            'assign': to_int_list(a), 'adtype': str(np.asarray(a).dtype),
                            'coords': [float(np.asarray(c).ravel()[0]) for c in coords]})
+        # one more sweep with the library's DEFAULT cost (keyword left out): `_msq` itself is exercised
+        if rs is not None:
+            drawlog[r] = list(rs.draws)      # the model's oracle: rank 0's draws of the sweeps above only
+        try:
+            xi, xd, xa, xc = pam_update(X=loc, metric=metric, medoid_inds=inds, assignments=a, distances=d,
+                                        proposals=(None if lprops is None else [tuple(p) for p in lprops]),
+                                        random_state=rs)
+            extra = {'ctrs': [[int(x), int(y)] for x, y in xi], 'dist': [float(x) for x in xd],
+                     'assign': to_int_list(xa), 'coords': [float(np.asarray(c).ravel()[0]) for c in xc]}
+        except Exception as e:  # noqa
+            extra = {'error': KIND.get(type(e).__name__, type(e).__name__)}
         full = None
         if w >= 2 and pm != 'random':
             res = kmedoids.kmedoids(loc.copy(), metric, n_iters=iters, assignments=a0[ids[r]].copy(),
@@ -781,7 +795,8 @@ def prep_pam_model(ctx, case):
                     'rd': [float(x) for x in mpi.ops.assemble_striped_ragged_array(res.distances, Larr)],
                     'ra': to_int_list(mpi.ops.assemble_striped_ragged_array(res.assignments, Larr)),
                     'rc': to_int_list(mpi.ops.convert_local_indices(res.center_indices, Larr))}
-        return {'sweeps': sweeps, 'costs': costs, 'draws': (rs.draws if rs is not None else None), 'full': full}
+        return {'sweeps': sweeps, 'costs': costs, 'draws': (drawlog[r] if rs is not None else None), 'full': full,
+                'extra': extra}
 
     out = run_ranks(w, fn, jit_seed=case['jit'])
     base = {'op': 'C14.mpi_pam', 'w': w, 'L': L, 'D': [[int(x) for x in row] for row in D],
@@ -850,6 +865,53 @@ def prep_pam_model(ctx, case):
                           % hist, case)
             return
 
+        # --- (P3) from a consistent start the REASSEMBLED DISTRIBUTED outputs are consistent after every sweep,
+        # whatever the proposals were and whatever the serial comparison below says
+        if case['start'] == 'kcenters':
+            for it in range(iters):
+                ra, rd = reassembled(it)
+                rc = [ids[p[0]][p[1]] for p in R0['sweeps'][it]['ctrs']]
+                if not consistent(ctx, case, D, to_int_list(rc), to_int_list(ra), [float(x) for x in rd], k,
+                                  'distributed PAM sweep %d on %d ranks' % (it, w)):
+                    return
+
+        # --- the extra sweep with the library's default cost: same medoids on every rank, the recomputed
+        # global cost does not rise, consistency is kept
+        ex0 = R0['extra']
+        if any(('error' in res['extra']) != ('error' in ex0) for res in out.results):
+            ctx.violation('distributed PAM with the default cost: some ranks raised, others did not (%s)'
+                          % [res['extra'].get('error') for res in out.results], case)
+            return
+        if 'error' in ex0:
+            if not (pm == 'random' and case['start'] == 'arbitrary' and ex0['error'] == 'data-invalid'):
+                ctx.violation('distributed PAM with the default cost raised %s'
+                              % sorted({res['extra']['error'] for res in out.results}), case)
+                return
+        else:
+            for r, res in enumerate(out.results):
+                if res['extra']['ctrs'] != ex0['ctrs'] or res['extra']['coords'] != ex0['coords']:
+                    ctx.violation('distributed PAM with the default cost: rank %d and rank 0 hold different medoids '
+                                  '(%s vs %s)' % (r, res['extra']['ctrs'], ex0['ctrs']), case)
+                    return
+            xa, xd = np.empty(N, dtype=int), np.empty(N)
+            for rr in range(w):
+                xa[ids[rr]] = out.results[rr]['extra']['assign']
+                xd[ids[rr]] = out.results[rr]['extra']['dist']
+            xcost = float(np.sum(np.square(xd)) / N)
+            if xcost > hist[-1]:
+                ctx.violation('distributed PAM with the default cost raised the global cost of the reassembled state: '
+                              '%r -> %r' % (hist[-1], xcost), case)
+                return
+            xc = [ids[p[0]][p[1]] for p in ex0['ctrs']]
+            if ex0['coords'] != [float(x) for x in xc]:
+                ctx.violation('distributed PAM with the default cost: the medoid frames are not the data at the medoid '
+                              'pairs', case)
+                return
+            if case['start'] == 'kcenters' and not consistent(
+                    ctx, case, D, to_int_list(xc), to_int_list(xa), [float(x) for x in xd], k,
+                    'distributed PAM sweep with the default cost on %d ranks' % w):
+                return
+
         def refines_serial(ys_per_sweep, report):
             """(P2) the serial sweeps on the concatenated data, handed the global frames of the proposals the
             ranks used, give the reassembled distributed state after every sweep; (P3) Consistent from a
@@ -876,10 +938,6 @@ def prep_pam_model(ctx, case):
                 if R0['sweeps'][it]['coords'] != [float(x) for x in rc]:
                     ctx.violation('sweep %d: the broadcast medoid frames are not the data at the medoid pairs' % it, case)
                     return False
-                if case['start'] == 'kcenters':
-                    if not consistent(ctx, case, D, to_int_list(c), to_int_list(a), [float(x) for x in d], k,
-                                      'distributed PAM sweep %d on %d ranks' % (it, w)):
-                        return False
             if R0['full'] is not None:
                 for r, res in enumerate(out.results):
                     f = res['full']
@@ -1386,13 +1444,14 @@ def prep_randind(ctx, case):
     outs = []
     for g in range(max(tot, 1)):
         def fn(r, g=g):
-            rs = Draw(g)
+            # rank 0 decides, the others receive: every other rank is handed a DIFFERENT draw
+            rs = Draw(g if r == 0 or tot < 2 else (g + 1 + (r % (tot - 1))) % tot)
             p = mpi.ops.randind(np.zeros(lens[r]), rs)
             return [int(p[0]), int(p[1])], rs.asked
         outs.append(run_ranks(w, fn, jit_seed=case['jit'] + g))
 
     def fseed(r):
-        p = mpi.ops.randind(np.zeros(lens[r]), np.random.RandomState(case['seed'] % 2 ** 31))
+        p = mpi.ops.randind(np.zeros(lens[r]), np.random.RandomState((case['seed'] + 7919 * r) % 2 ** 31))
         return [int(p[0]), int(p[1])]
     oseed = run_ranks(w, fseed) if tot else None
     reqs = [{'op': 'C14.randind_all', 'lens': lens}]
@@ -1419,16 +1478,16 @@ def prep_randind(ctx, case):
             if any(res[0] != p for res in o.results):
                 ctx.violation('randind: ranks disagree on the chosen element for draw %d' % g, case)
                 return
+            if not (0 <= p[0] < w and 0 <= p[1] < lens[p[0]]):
+                ctx.violation('randind: draw %d gives %s, not an element of the striped array' % (g, p), case)
+                return
             if o.results[0][1] != tot:
                 # the stub RandomState did not see randint(total) on rank 0: the draw is not under the harness's
-                # control, nothing below can be evaluated (instrumentation, not a predicate on outputs)
+                # control, the enumeration below cannot be evaluated (instrumentation, not a predicate on outputs)
                 if not PRIVATE_REPORTED.get('randind-draw'):
                     PRIVATE_REPORTED['randind-draw'] = True
                     ctx.disagreement('randind no longer draws random_state.randint(total) on rank 0 (stub saw %s): '
                                      'the draw cannot be enumerated' % o.results[0][1], case)
-                return
-            if not (0 <= p[0] < w and 0 <= p[1] < lens[p[0]]):
-                ctx.violation('randind: draw %d gives %s, not an element of the striped array' % (g, p), case)
                 return
             got.append(tuple(p))
         # uniform: the map draw -> element is a bijection onto all elements
@@ -1447,6 +1506,9 @@ def prep_randind(ctx, case):
             ctx.violation('randind with a seeded RandomState failed: %s' % oseed.describe(), case)
         elif any(tuple(res) != tuple(oseed.results[0]) for res in oseed.results):
             ctx.violation('randind with a seeded RandomState: ranks disagree on the chosen element', case)
+        elif not (0 <= oseed.results[0][0] < w and 0 <= oseed.results[0][1] < lens[oseed.results[0][0]]):
+            ctx.violation('randind with a seeded RandomState returns %s, not an element of the striped array'
+                          % (oseed.results[0],), case)
         elif tuple(oseed.results[0]) != got[g]:
             ctx.disagreement('randind with a seeded RandomState does not pick element randint(total) of the seed', case)
     return reqs, finish
@@ -2105,8 +2167,9 @@ def prep_randind_big(ctx, case):
 
     def fn(r):
         loc = np.zeros(lens[r])
-        got = [tuple(int(x) for x in mpi.ops.randind(loc, Draw(g))) for g in draws]
-        got.append(tuple(int(x) for x in mpi.ops.randind(loc, seed)))          # an int seed
+        # rank 0 decides, the others receive: the other ranks get different draws / seeds
+        got = [tuple(int(x) for x in mpi.ops.randind(loc, Draw(g if r == 0 else (g + 1 + r) % n))) for g in draws]
+        got.append(tuple(int(x) for x in mpi.ops.randind(loc, (seed + 7919 * r) % 2 ** 31)))   # an int seed
         return got
     out = run_ranks(w, fn, jit_seed=case['jit'], timeout=90.0)
 
@@ -2122,7 +2185,7 @@ def prep_randind_big(ctx, case):
         if any(not (0 <= o < w and 0 <= i < lens[o]) for o, i in out.results[0]):
             ctx.violation('randind on %d elements returns something that is not an element of the array' % n, case)
             return
-        if USED['n'] < len(draws):
+        if USED['n'] < len(draws) * 1:
             if not PRIVATE_REPORTED.get('randind-draw'):
                 PRIVATE_REPORTED['randind-draw'] = True
                 ctx.disagreement('randind no longer draws through random_state.randint: the draw cannot be chosen', case)
